@@ -10,7 +10,8 @@ from bycycle.burst.utils import check_min_burst_cycles
 ID = 'C08'
 TITLE = 'Minimum-run filter removes exactly the short bursts'
 RULE = ('enum: every boolean array of length 1..L (L=12 quick, 16 thorough) x every min_n_cycles in 0..len+1; '
-        'hyp: boolean arrays built from drawn run lengths up to length ~400 with k<=50 (ints, floats, numpy ints). '
+        'hyp: boolean arrays built from drawn run lengths up to length ~400 with k<=50 (ints, floats, numpy ints); '
+        'thorough only: atheris / libFuzzer coverage-guided fuzzing of the same check body (bytes -> bits, k; empty corpus). '
         'Oracle: groupby run filter (differential) + direct predicates (same length, no False->True, every maximal '
         'run kept iff len>=k, idempotent). Non-trivial: the array holds a run >= k and a run < k, or a run '
         'touching an edge that is shorter than k. Distinct = distinct (array, k).')
@@ -106,9 +107,17 @@ def strategy(tier):
     return s()
 
 
+def decode(fdp):
+    n = fdp.ConsumeIntInRange(1, 96)
+    bits = [int(fdp.ConsumeBool()) for _ in range(n)]
+    return {'bits': bits, 'k': fdp.ConsumeIntInRange(0, 100), 'ktype': ['int', 'float', 'npint'][fdp.ConsumeIntInRange(0, 2)]}
+
+
 PARTS = [
     Part('exhaustive', check, enum=enum, shards={'quick': 8, 'thorough': 16}, exhaustive=True,
          time_cap={'quick': 120, 'thorough': 1800}),
     Part('long-arrays', check, strategy=strategy, budget={'quick': 2000, 'thorough': 60000},
          shards={'quick': 4, 'thorough': 16}),
+    Part('fuzz-atheris', check, decode=decode, budget={'quick': 0, 'thorough': 3000000}, shards={'quick': 1, 'thorough': 12},
+         tiers=('thorough',), time_cap={'quick': 60, 'thorough': 1500}),
 ]
